@@ -24,12 +24,12 @@ def space(tier):
 
 def cases(tier):
     q = tier == 'quick'
-    for d in ([2, 3] if q else [2, 3, 4]):
-        for rows in itertools.product([1, 2, 3] if d < 4 else [2, 3], repeat=d):
-            for rk in rank_vectors(d, [1, 2, 3] if (d < 3 or not q) else [1, 3]):
+    for d in ([2, 3] if q else [2, 3, 4, 5]):
+        for rows in itertools.product(([1, 2, 3] if q else [1, 2, 3, 4]) if d < 4 else ([2, 3] if d == 4 else [2]), repeat=d):
+            for rk in rank_vectors(d, ([1, 2, 3] if (d < 3 or not q) else [1, 3]) if d < 5 else [1, 2]):
                 for c in (False, True):
                     for fam in ('gauss', 'lowrank', 'int'):
-                        if d == 4 and fam == 'int':
+                        if d >= 4 and fam == 'int':
                             continue
                         for idx in range(1, d):
                             for scale in (1.0, 1e-12, 1e10):
